@@ -163,6 +163,8 @@ class CSym(object):
         self.literal_names = {}     # name -> (float value, exact term): decimal literals read as the irrational number they round (assumption, opt-in)
         self.literals_used = set()
         self.global_arrays = {}
+        self._isqrt = {}
+        self.monotone_tables = set()   # names of int location tables assumed non-decreasing and non-negative (a requires clause of the caller)
         self.hyps = []                        # the function's `requires` (used when separating a read from an earlier write)
         self.private_names = set()            # scalars / pointers declared inside a parallel region or named in private-like clauses
         self.in_single = 0
@@ -758,13 +760,17 @@ class CSym(object):
                 dn = self.nf.nf(delta)
                 delta_s = self.nf.rf_to_term(dn)
             except NFError:
-                if self.footprint and is_real:
-                    forms[name] = ("havoc", fresh(name + "@any", "R"), fresh(name + "@out", "R"))
+                if (self.footprint and is_real) or not isinstance(cur, Ptr):
+                    srt = "R" if is_real else "I"
+                    forms[name] = ("havoc", fresh(name + "@any", srt), fresh(name + "@out", srt))
                     continue
                 raise CUnsupported("loop-carried update of %s is not additive" % name)
             if any(x is e for x in tm.subterms(delta_s).values()):
-                if self.footprint and is_real:
-                    forms[name] = ("havoc", fresh(name + "@any", "R"), fresh(name + "@out", "R"))
+                if (self.footprint and is_real) or not isinstance(cur, Ptr):
+                    # a non-additive scalar recurrence (e.g. a running maximum): its value is left unconstrained inside and after the loop (sound
+                    # over-approximation; an obligation that depends on it becomes undecided, never wrongly discharged)
+                    srt = "R" if is_real else "I"
+                    forms[name] = ("havoc", fresh(name + "@any", srt), fresh(name + "@out", srt))
                     continue
                 raise CUnsupported("loop-carried update of %s is not additive (increment depends on the value)" % name)
             others = [entry[o] for o in carried if entry.get(o) is not None and o != name]
@@ -915,10 +921,7 @@ class CSym(object):
             v2 = as_int(v)
             if isinstance(v2, (int, Q)):
                 return int(v2)
-            c_ = closed_trunc(v)
-            if c_ is not None:
-                return c_
-            return tm.mk_fn("trunc", tm.lift(v))
+            return self._trunc(v)
         if ck == "NullToPointer":
             return None
         if ck in ("FloatingRealToComplex", "IntegralRealToComplex"):
@@ -926,6 +929,22 @@ class CSym(object):
         if ck in ("FloatingComplexToReal", "IntegralComplexToReal"):
             return v.re if isinstance(v, Cx) else v
         return v
+
+    def _trunc(self, v):
+        """(int) of a real value.  For (int) sqrt(t) the result is named k with the defining facts 0 <= k, k^2 <= t < (k+1)^2 (sound for t >= 0,
+        the domain of sqrt); otherwise the uninterpreted trunc."""
+        t = tm.lift(v)
+        c_ = closed_trunc(t)
+        if c_ is not None:
+            return c_
+        if t.op == "^" and t.args[1].op == "c" and t.args[1].args[0] == Q(1, 2):
+            key = t.id
+            if key not in self._isqrt:
+                k = fresh("isqrt")
+                self._isqrt[key] = k
+                self.side.append(("assume", tm.mk_and(tm.mk_le(tm.ZERO, k), tm.mk_le(k * k, t.args[0]), tm.mk_lt(t.args[0], (k + 1) * (k + 1))), (), (), self.fn_stack[-1] if self.fn_stack else "?"))
+            return self._isqrt[key]
+        return tm.mk_fn("trunc", t)
 
     def _global_array(self, name):
         """A file-scope const array with an initialiser list: an array whose elements are the evaluated initialisers (reads at concrete indices only)."""
@@ -976,10 +995,7 @@ class CSym(object):
                 return int(v2)
             if isinstance(v2, T) and _is_int_term(v2):
                 return v2
-            c_ = closed_trunc(v2)
-            if c_ is not None:
-                return c_
-            return tm.mk_fn("trunc", tm.lift(v2))
+            return self._trunc(v2)
         return v
 
     def e_DeclRefExpr(self, n, env, tu):
@@ -1296,6 +1312,8 @@ class CSym(object):
                     if d_ is not None and d_.op == "c" and d_.args[0] != 0:
                         continue          # the two indices differ by a non-zero constant
                     ok = smt.check_sat(list(self.hyps) + list(self.guards) + list(e.guards) + [tm.mk_eq(e.idx, p.off)], 3.0, use_cvc5=False)[0]
+                    if ok != "unsat" and not self.footprint and self._cannot_alias(e, [], p):
+                        ok = "unsat"
                     if ok != "unsat":
                         raise CUnsupported("cannot separate a read of %s[%s] from the earlier write %s[%s]" % (p.arr.name, tm.show(p.off, 40), e.arr.name, tm.show(e.idx, 40)))
                 continue
@@ -1312,10 +1330,35 @@ class CSym(object):
                     # the read must fall into the range initialised by that loop
                     self.side.append(("covered", tm.mk_and(tm.mk_le(lo, sol), tm.mk_lt(sol, hi)), tuple(self.guards), tuple(self.qvars), self.fn_stack[-1]))
                     return tm.substitute(e.val, {qv: sol})
+            if not self.footprint and self._cannot_alias(e, extra, p):
+                continue
             if p.arr.private or p.arr.origin in ("malloc", "local"):
                 raise CUnsupported("read of scratch array %s written by an earlier loop in an unsupported pattern (qvars of the write %s, of the read %s, op %s)" % (p.arr.name, [tm.show(q[0]) for q in e.qvars], [tm.show(q) for q in cur_q], e.op))
             raise CUnsupported("read of %s after writes by an earlier loop nest" % p.arr.name)
         return None
+
+    def _cannot_alias(self, e, extra, p):
+        """True when the earlier write e (over the ranges of its own loop variables) provably never hits the location p read now."""
+        from pyvc import intarith
+        rng = [c for (qv, lo, hi, st) in e.qvars for c in (tm.mk_le(tm.lift(lo), qv), tm.mk_lt(qv, tm.lift(hi)))]
+        rng += [c for (qv, lo, hi, st) in self.qvars for c in (tm.mk_le(tm.lift(lo), qv), tm.mk_lt(qv, tm.lift(hi)))]
+        assumes = [x[1] for x in self.side if x[0] == "assume"]
+        cons = list(self.hyps) + assumes + rng + list(self.guards) + list(e.guards) + [tm.mk_eq(e.idx, p.off)]
+        for tab in self.monotone_tables:
+            idxs = {}
+            for c in cons:
+                for u in tm.subterms(tm.lift(c)).values():
+                    if u.op == "fi" and u.args[0] == tab:
+                        idxs[u.args[1].id] = u.args[1]
+            for a in idxs.values():
+                cons.append(tm.mk_le(tm.ZERO, tm.mk_fi(tab, a)))
+                for b in idxs.values():
+                    if a is not b:
+                        cons.append(tm.mk_implies(tm.mk_le(a, b), tm.mk_le(tm.mk_fi(tab, a), tm.mk_fi(tab, b))))
+        try:
+            return intarith.check_sat_int(cons, 3.0)[0] == "unsat"
+        except Exception:
+            return False
 
     def store(self, p, op, v):
         if isinstance(v, tuple) and v and v[0] == "sizeof":
@@ -1341,8 +1384,9 @@ class CSym(object):
     def _cx_parts(self, arr):
         if not hasattr(arr, "cx_parts"):
             arr.cx_parts = tuple(Arr("%s.%s" % (arr.name, part), "double", arr.extent, private=arr.private, origin=arr.origin) for part in ("re", "im"))
-            for a_ in arr.cx_parts:
+            for a_, part in zip(arr.cx_parts, ("re", "im")):
                 a_.zeroed = getattr(arr, "zeroed", False)
+                a_.cx_parent, a_.cx_part = arr, part
         return arr.cx_parts
 
     # ------------------------------------------------------------------ calls
